@@ -894,6 +894,9 @@ class DNA(symbolic.Object):
         raise ValueError(
             f'DNA value type mismatch, Value: {self.value!r}, Spec: {spec!r}.')
     self._spec = spec
+    # The lookups by id and by name depend on the spec.
+    self._decision_by_id_cache = None
+    self._named_decisions = None
     return self
 
   @classmethod
